@@ -17,7 +17,12 @@ behind `Variant` flags for the witness theorems):
     `DBusObjectHandler.getRemoteObject` (explicit interfaces: proxy made at once; otherwise an Introspect
     call whose reply makes the proxy);
   * just enough of the reply paths (method return / error / timeout; owned by C08) for tables with some
-    calls already completed.
+    calls already completed;
+  * the CALLER cancelling the Deferred of an outstanding call (`Deferred.cancel()`, Twisted): the Deferred has
+    no canceller, so it fires at once with CancelledError and sets `_suppressAlreadyCalled`; txdbus is not
+    told: the `_pendingCalls` entry and its DelayedCall stay.  Whatever conclusion the library attempts
+    next on that Deferred (reply, error reply, timeout, or the errback of `connectionLost`) is swallowed by
+    `Deferred._startRunCallbacks`; the timer handling around it is unchanged (`Call.cancelled`).
 
 User code runs INSIDE `connectionLost`: every pending call and every registered callback carries a
 `Reaction`, performed at the moment the code runs it, against the tables as they are at that moment.
@@ -87,6 +92,9 @@ structure Call where
   serial : Nat
   timed : Bool
   kind : CallKind
+  /-- The caller has called `.cancel()` on the Deferred: it has fired with CancelledError and the next
+  `callback` / `errback` the library makes on it is swallowed (`_suppressAlreadyCalled`). -/
+  cancelled : Bool := false
 deriving DecidableEq, Repr
 
 /-- A `RemoteDBusObject`.  `alive`: the user still holds it (the registry only holds a weak reference). -/
@@ -124,6 +132,7 @@ inductive ErrKind
   | introspectionFailed   -- IntrospectionFailed wrapping the failure (getRemoteObject's Deferred)
   | remote                -- RemoteError from an error reply
   | timeout               -- error.TimeOut
+  | cancelled             -- defer.CancelledError: the caller cancelled the Deferred (not the library's doing)
 deriving DecidableEq, Repr
 
 /-- Observable effects, in the order the code produces them. -/
@@ -283,10 +292,12 @@ def reactionOf : CallKind → Reaction
   | .user r => r
   | _ => .nothing
 
-/-- `if timeout: timeout.cancel()` then `d.errback(reason)` for one entry. -/
+/-- `if timeout: timeout.cancel()` then `d.errback(reason)` for one entry.  On a Deferred the caller has
+cancelled the errback is swallowed: nothing fires, no user code runs. -/
 def failCall (v : Variant) (c : Call) (s : St) : St :=
   let s := if c.timed then { s with timers := s.timers.filter (· ≠ c.serial), log := s.log ++ [.timerCancelled c.serial] } else s
-  react v (.errback c) (reactionOf c.kind) (s.emit (.callErr c.serial (errKindOf c.kind)))
+  if c.cancelled then s
+  else react v (.errback c) (reactionOf c.kind) (s.emit (.callErr c.serial (errKindOf c.kind)))
 
 /-- The walk over the (old) pending table `calls`. -/
 def failCalls (v : Variant) : List Call → St → St
@@ -375,8 +386,15 @@ def takeCall (c : Call) (s : St) : St :=
   let s := if c.timed then { s with timers := s.timers.filter (· ≠ c.serial), log := s.log ++ [.timerCancelled c.serial] } else s
   { s with pending := removeCall c.serial s.pending }
 
-/-- The firing of the call's Deferred; an Introspect reply makes the proxy. -/
+/-- `d.cancel()` by the caller: the entry stays in the table, marked. -/
+def markCancelled (serial : Nat) : List Call → List Call
+  | [] => []
+  | c :: t => if c.serial = serial then { c with cancelled := true } :: t else c :: markCancelled serial t
+
+/-- The firing of the call's Deferred; an Introspect reply makes the proxy.  On a Deferred the caller has
+cancelled, `d.callback` / `d.errback` is swallowed: no callback runs (no proxy is made). -/
 def completeCall (v : Variant) (c : Call) (ok : Bool) (s : St) : St :=
+  if c.cancelled then s else
   match c.kind, ok with
   | .introspect key, true => makeProxy v key false (s.emit (.callOk c.serial))
   | .introspect _, false => s.emit (.callErr c.serial .introspectionFailed)
@@ -410,6 +428,7 @@ inductive Ev
   | proxyNotify (p : Nat) (r : Reaction)
   | proxyCancelNotify (p c : Nat)
   | dropProxy (p : Nat)
+  | cancelCall (serial : Nat)     -- `.cancel()` on the Deferred that callRemote / getRemoteObject returned
 deriving DecidableEq, Repr
 
 def Ev.isEnv : Ev → Bool
@@ -469,7 +488,10 @@ def step (v : Variant) (s : St) : Ev → St
       let s := { s with timers := s.timers.filter (· ≠ serial) }
       match findCall serial s.pending with
       | none => s.emit .crashed
-      | some _ => { s with pending := removeCall serial s.pending }.emit (.callErr serial .timeout)
+      | some c =>
+        -- on a Deferred the caller has cancelled, the errback is swallowed
+        { s with pending := removeCall serial s.pending,
+                 log := s.log ++ (if c.cancelled then [] else [.callErr serial .timeout]) }
     else s
   | .call timed r =>
     if s.phase = .ready then issueCall timed (.user r) s else s
@@ -500,6 +522,17 @@ def step (v : Variant) (s : St) : Ev → St
     if s.phase = .ready then
       { s with proxies := modifyProxy p (fun q => { q with alive := false }) s.proxies,
                registry := s.registry.filter (fun e => e.2 ≠ p) }
+    else s
+  | .cancelCall serial =>
+    -- Deferred.cancel(): no canceller, so `_suppressAlreadyCalled = True` and errback(CancelledError) - the
+    -- user's errback sees a CancelledError (it reacts to the loss only); a Deferred that has fired already
+    -- (cancelled before) ignores it.  `_pendingCalls` and the DelayedCall are untouched.
+    if s.phase = .ready then
+      match findCall serial s.pending with
+      | some c =>
+        if c.cancelled then s
+        else { s with pending := markCancelled serial s.pending, log := s.log ++ [.callErr serial .cancelled] }
+      | none => s
     else s
 
 def run (v : Variant) (s : St) : List Ev → St
